@@ -744,6 +744,43 @@ class Case:
 ALL_KINDS = ["select", "derive", "filter", "sort", "take", "aggregate", "group_agg", "group_take", "join", "append", "window"]
 
 
+def systematic_let_cases(maxlen, profile, seed=9, kinds=("sort", "take", "filter", "derive", "select", "join", "group_agg"), sample=None):
+    """every sequence of transform kinds of length 2..maxlen, cut at every position into `let p = (from t | prefix)` and
+    `from p | suffix` (the order established inside a let-table must survive the boundary)"""
+    import itertools, zlib
+    out = []
+    for n in range(2, maxlen + 1):
+        seqs = list(itertools.product(kinds, repeat=n))
+        if sample and n == maxlen and len(seqs) > sample[1]:
+            seqs = sample[0].sample(seqs, sample[1])
+        for seq in seqs:
+            for cut in range(1, n):
+                rng = random.Random(zlib.crc32(repr((seed, cut) + seq).encode()))
+                for attempt in range(3):
+                    try:
+                        g = Gen(rng, nlets=0, **profile)
+                        ExprGen.functions = g.functions
+                        (kind, idx), frame, text, sx, _ = g.pipeline(forced=list(seq[:cut]))
+                        if not g.unique_names(frame):
+                            raise NotApplicable("names")
+                        frame = [c.copy(ref=c.name) for c in frame]
+                        g.lets.append(("p0", frame, " | ".join(text), f"( ( {kind} {idx} ) ( " + " ".join(sx) + " ) )"))
+                        li = len(g.lets) - 1
+                        g.forced = list(seq[cut:])
+                        (k2, i2), frame2, text2, sx2, frames2 = g.pipeline(first_choice=("ref", li, "p0", frame), forced=g.forced)
+                        c = Case(g.schema, g.declared, [(nm, t, sxx) for nm, _, t, sxx in g.lets], (k2, i2), text2, sx2, frames2, g.trace)
+                        c.functions = g.functions
+                        c.db = gen_db(rng, g.schema)
+                        c.seq = seq
+                        out.append(c)
+                        break
+                    except NotApplicable:
+                        continue
+                    finally:
+                        ExprGen.functions = False
+    return out
+
+
 def systematic_cases(maxlen, profile, seed=7, sample=None, kinds=ALL_KINDS):
     """one program per sequence of transform kinds of length <= maxlen (seed-independent enumeration); `sample`: (rng, n) to
     subsample the longest length"""
